@@ -19,6 +19,7 @@
   --   Cx.Spec.Ripemd160.pad       : Bytes → Bytes
 -/
 import CxVerif.Util.Bytes
+import CxVerif.Spec.MerkleDamgard
 namespace Cx.Spec.Ripemd160
 open Cx
 
@@ -105,17 +106,16 @@ def combine (h l r : Hash) : Hash :=
 def compress (h : Hash) (M : List UInt32) : Hash :=
   combine h (leftLine M h) (rightLine M h)
 
-def padZeros (len : Nat) : Nat := (119 - len % 64) % 64
-
-/-- MD4-style padding: bit "1", zero bits up to 448 mod 512, 64-bit little-endian bit length -/
-def pad (msg : Bytes) : Bytes :=
-  msg ++ [(0x80 : UInt8)] ++ zeros (padZeros msg.length) ++ natToLE 8 (8 * msg.length)
+/-- MD4-style padding: bit "1" (byte 0x80), zero bits up to 448 mod 512, 64-bit little-endian bit length -/
+def pad (msg : Bytes) : Bytes := Cx.Spec.MD.pad 64 8 Cx.Spec.MD.le64 msg
 
 def Hash.toBytes (h : Hash) : Bytes := u32le h.a ++ u32le h.b ++ u32le h.c ++ u32le h.d ++ u32le h.e
 
-def hashBlocks (H : Hash) (blocks : List Bytes) : Hash :=
-  blocks.foldl (fun H blk => compress H (wordsLE32 blk)) H
+/-- one block given as 64 bytes: sixteen little-endian words -/
+def compressBytes (H : Hash) (blk : Bytes) : Hash := compress H (wordsLE32 blk)
 
-def ripemd160 (msg : Bytes) : Bytes := (hashBlocks H0 (chunks 64 (pad msg))).toBytes
+def hashValue (msg : Bytes) : Hash := Cx.Spec.MD.hash 64 8 Cx.Spec.MD.le64 compressBytes H0 msg
+
+def ripemd160 (msg : Bytes) : Bytes := (hashValue msg).toBytes
 
 end Cx.Spec.Ripemd160
